@@ -31,11 +31,12 @@ func init() {
 		}
 	}
 	add("C03", "snps", func() []Scenario {
-		return append(schedPair("snps", func(n int) Call { return Call{Cmd: "snps", Ref: fastaOf("ref", g12), Msa: fastaOf(mutated(g12, n)...)} }),
+		// 160 records: more than twice the NumCPU+50 buffer plus the workers
+		return append(schedPair("snps", func(n int) Call { return Call{Cmd: "snps", Ref: fastaOf("ref", g12), Msa: fastaOf(mutated(g12, n)...)} }, 160),
 			schedPair("snps-hardgaps", func(n int) Call { return Call{Cmd: "snps", Ref: fastaOf("ref", g12), Msa: fastaOf(mutated(g12, n)...), HardGaps: true} })...)
 	})
 	add("C10", "list", func() []Scenario {
-		return schedPair("list", func(n int) Call { return Call{Cmd: "list", Ref: fastaOf("ref", g12), Msa: fastaOf(mutated("ATGNNATAA-CC", n)...)} })
+		return schedPair("list", func(n int) Call { return Call{Cmd: "list", Ref: fastaOf("ref", g12), Msa: fastaOf(mutated("ATGNNATAA-CC", n)...)} }, 160)
 	})
 	add("C04", "variants", func() []Scenario {
 		return append(schedPair("variants-gb", func(n int) Call { return Call{Cmd: "variants", Msa: msa(n), RefID: "ref", Anno: gb, AnnoSuffix: "gb", AppendSNP: true} }),
@@ -67,7 +68,7 @@ func init() {
 			schedPair("closestn-table", func(n int) Call { return Call{Cmd: "closest", Query: q, Target: targets(n), Measure: "tn93", HasDist: true, MaxDist: 0.5, Table: true} })...)
 	})
 	add("C07", "distance", func() []Scenario {
-		q := fastaOf("qa", "ACGTACGTAAAA")
+		q := fastaOf("qa", "ACGTACGTAAAA", "qb", "ACGTACGTAACA")
 		return schedPair("closest-table-all", func(n int) Call { return Call{Cmd: "closest", Query: q, Target: targets(n), Measure: "tn93", N: n, Table: true} })
 	})
 	add("C08", "topranking", func() []Scenario {
